@@ -195,7 +195,9 @@ func (fd *Client) UpdateTable(ctx context.Context, input *dynamodb.UpdateTableIn
 	}
 
 	if input.AttributeDefinitions != nil {
-		table.SetAttributeDefinition(mapDynamoToTypesAttributeDefinitionSlice(input.AttributeDefinitions))
+		if err := table.UpdateAttributeDefinition(mapDynamoToTypesAttributeDefinitionSlice(input.AttributeDefinitions)); err != nil {
+			return nil, mapKnownError(err)
+		}
 	}
 
 	for _, change := range input.GlobalSecondaryIndexUpdates {
